@@ -391,7 +391,9 @@ func refUnset(node any, segs []string) any {
 
 func mixedLists(c *oracleCtx) [][]any {
 	o1, o2, l1 := NewObject("a", 1), NewObject("b", 2), NewList(9)
-	atoms := []any{1, -3, 2.5, -0.5, "s", "t", true, false, nil, o1, o2, l1, math.MaxInt, math.MinInt, 7.0}
+	// derived containers (user types embedding List / Object, registered with Init) are Lists / Objects too
+	d1, d2, d3 := newDList(5), newDObject("z", 1), newDDList("dd")
+	atoms := []any{1, -3, 2.5, -0.5, "s", "t", true, false, nil, o1, o2, l1, math.MaxInt, math.MinInt, 7.0, d1, d2, d3, NewList(), NewObject()}
 	var out [][]any
 	out = append(out, []any{})
 	for _, a := range atoms {
@@ -475,7 +477,11 @@ func c14Oracle(c *oracleCtx) {
 					l.ReduceStrings("", func(a, b string) string { log = append(log, b); return a })
 					return log
 				}},
-				{"ReduceInts", TypeInt, func() []any { log = nil; l.ReduceInts(0, func(a, b int) int { log = append(log, b); return a }); return log }},
+				{"ReduceInts", TypeInt, func() []any {
+					log = nil
+					l.ReduceInts(0, func(a, b int) int { log = append(log, b); return a })
+					return log
+				}},
 				{"ReduceFloats", TypeFloat, func() []any {
 					log = nil
 					l.ReduceFloats(0, func(a, b float64) float64 { log = append(log, b); return a })
@@ -566,9 +572,23 @@ func c14Oracle(c *oracleCtx) {
 				o.ForEachBool(func(bool) { n[TypeBool]++ })
 				o.ForEachInt(func(int) { n[TypeInt]++ })
 				o.ForEachFloat(func(float64) { n[TypeFloat]++ })
-				for t, k := range n {
-					if k != len(count(t)) {
+				for _, t := range []Type{TypeObject, TypeList, TypeString, TypeBool, TypeInt, TypeFloat} {
+					if k := n[t]; k != len(count(t)) {
 						return fmt.Sprintf("object ForEach of kind %d visits %d fields, there are %d", t, k, len(count(t)))
+					}
+				}
+				// and with the right values
+				vo, vl := map[any]int{}, map[any]int{}
+				o.ForEachObject(func(x Object) { vo[x]++ })
+				o.ForEachList(func(x List) { vl[x]++ })
+				for _, v := range count(TypeObject) {
+					if vo[v] == 0 {
+						return "object ForEachObject misses a field of kind object (identity)"
+					}
+				}
+				for _, v := range count(TypeList) {
+					if vl[v] == 0 {
+						return "object ForEachList misses a field of kind list (identity)"
 					}
 				}
 				seen := map[string]int{}
@@ -820,6 +840,27 @@ func newDDList(vals ...any) *ddList {
 	d.Init(d)
 	return d
 }
+
+// two embedding levels with the inner level registered first (the README's Animal / Dog construction):
+// the later Init of the outer value must win
+type ddObject struct {
+	*dObject
+	extra int
+}
+
+func newDDObject(vals ...any) *ddObject {
+	inner := newDObject(vals...) // registers the inner value
+	d := &ddObject{dObject: inner, extra: 1}
+	d.Init(d) // re-registers: from now on the outer value is the ego
+	return d
+}
+func newDDListInnerFirst(vals ...any) *ddList {
+	inner := newDList(vals...)
+	d := &ddList{dList: inner, extra: 2}
+	d.Init(d)
+	return d
+}
+
 func newDObject(vals ...any) *dObject {
 	d := &dObject{Object: NewObject(vals...), tag: "d"}
 	d.Init(d)
@@ -865,6 +906,16 @@ func c19Oracle(c *oracleCtx) {
 			}
 			return ""
 		})
+		c.check("list3:"+lc.id, true, func() string {
+			d := newDDListInnerFirst(3, 1, 2)
+			if got := lc.f(d); got != any(d) {
+				return fmt.Sprintf("%s returned %T instead of the value registered last (two levels, inner registered first)", lc.id, got)
+			}
+			if d.Ego() != List(d) {
+				return "Ego does not return the value registered last"
+			}
+			return ""
+		})
 		c.check("list2:"+lc.id, true, func() string {
 			d := newDDList(3, 1, 2)
 			if got := lc.f(d); got != any(d) {
@@ -905,6 +956,28 @@ func c19Oracle(c *oracleCtx) {
 			return ""
 		})
 	}
+	for _, oc := range ocases {
+		oc := oc
+		c.check("obj2:"+oc.id, true, func() string {
+			d := newDDObject("a", 1, "b", "x")
+			if got := oc.f(d); got != any(d) {
+				return fmt.Sprintf("%s returned %T instead of the value registered last (two levels, inner registered first)", oc.id, got)
+			}
+			if d.Ego() != Object(d) {
+				return "Ego does not return the value registered last"
+			}
+			return ""
+		})
+	}
+	c.check("retrieval2", true, func() string {
+		dl, do := newDDListInnerFirst(1), newDDObject("k", 1)
+		l := NewList(dl, do)
+		o := NewObject("l", dl, "o", do)
+		if l.Get(0) != any(dl) || l.GetObject(1) != Object(do) || o.Get("o") != any(do) || o.GetList("l") != List(dl) || o.GetTF(".o") != any(do) || l.ObjectSlice()[0] != Object(do) {
+			return "a stored two-level derived value is not handed back identically"
+		}
+		return ""
+	})
 	c.check("retrieval", true, func() string {
 		dl, do := newDList(1), newDObject("k", 1)
 		l := NewList(dl, do)
